@@ -335,7 +335,9 @@ def concretisations(thorough):
           Concretisation('int.dr', '1', 0.6, 0.9, 1e6, 'literal', int_dr=True),
           # parameters typed as integers (Python int / numpy integer): the value, not the type, defines the potential
           Concretisation('int.params', '0.5', 2, 3, 1000000, 'literal'),
-          Concretisation('npint.params', '0.25', np.int64(1), np.int64(2), np.int64(1000000), 'computed')]
+          Concretisation('npint.params', '0.25', np.int64(1), np.int64(2), np.int64(1000000), 'computed'),
+          # a true hard core: the overlap value is infinite
+          Concretisation('inf.core', '0.5', 0.8, 1.5, float('inf'), 'literal')]
     if thorough:
         cs += [Concretisation('0.075', '0.075', 1.0, 1.0, 1e6, 'literal'),
                Concretisation('0.02', '0.02', 0.25, 0.1, 1e6, 'computed'),
